@@ -72,6 +72,8 @@ class Probes:
             try:
                 if len(old.box[0]) != nbox:
                     d = -2
+                elif len(old.lst) != old.x:     # a top-level list mutated in place: frozen with its content
+                    d = -4
             except Exception:
                 d = -3
         self.log.append(loge('cond', ck, owner, idx, d, 1 if ok else 0, time))
